@@ -290,6 +290,9 @@ class Ctx:
             self._clause('no-exception')['failed'] += 1
             self._violation('no-exception', s, case, '%s: %s' % (type(e).__name__, str(e)[:300]),
                             'no exception')
+            s2 = dict(s)
+            s2['clause'] = 'no-exception'
+            self.violations[dumps(s2)].setdefault('run_sig', jsonable(sig or {}))
             return False
         else:
             self._clause('no-exception', tol='predicate')['checked'] += 1
